@@ -160,6 +160,7 @@ class Exec:
         # second-solver cross-check: the first few unsat obligations seen by this executor are re-decided by the
         # system z3 4.8.12 and by cvc5 from their SMT-LIB2 text (VERIF_XCHECK = queries per executor, 0 = off)
         self.xcheck_left = int(os.environ.get('VERIF_XCHECK', '0') or 0)
+        self.xcheck_spent = 0.0   # seconds spent in the other solvers; sampling stops after 90 s per harness
         self.results = []         # violations / inconclusives
         self.viol_seen = set()
         self.fn_used = {}
@@ -389,9 +390,11 @@ class Exec:
                 model = s.model()
         if r == z3.unsat:
             self.stats['discharged'] += 1
-            if self.xcheck_left > 0:
+            if self.xcheck_left > 0 and self.xcheck_spent < 90:
                 self.xcheck_left -= 1
+                t_x = time.time()
                 self.cross_check(neg, kind, where, msg)
+                self.xcheck_spent += time.time() - t_x
             if len(self.samples) < 6:
                 self.samples.append({'obligation': kind, 'at': where, 'msg': msg, 'verdict': 'unsat',
                                      'path_decisions': len(self.decisions)})
